@@ -6,7 +6,7 @@ import pC13
 SLICE = "STORE with D operations (one datagram through the responder loop body, the one-shot resolver's header peeks on its 4096-byte buffer, and the discovery listener's loop body, against a generated store)"
 RULE = ("stores built from the C13 record pool plus records with hostile owner names; datagrams: empty, 1..11 bytes, every "
         "truncation and length corruption of valid queries and responses, valid packets with non-UTF-8 / NUL / dotted / maximal "
-        "labels both as questions and as announced records, announced TTLs up to 2^32-1 with and without cache-flush, responses with and without the RESPONSE flag, seeded random bytes; "
+        "labels both as questions and as announced records, announced TTLs up to 2^32-1 with and without cache-flush, queries carrying known answers with TTLs up to 2^32-1, responses with and without the RESPONSE flag, seeded random bytes; "
         "interleaved with valid traffic. Oracle: no PANIC/HANG; every reply produced parses. non-trivial = datagram accepted by some pipeline")
 CASE_SECS = 20
 CANNOT_EXHIBIT = ["the receive threads, RwLock poisoning and multicast sockets themselves: the loop bodies are driven through the "
@@ -43,7 +43,12 @@ def cases(rng, tier):
                 else:
                     q = rng.choice(pC13.NAMES + [SVC, ME])
                     p = pC13.query_pkt(rng.below(65536), [{"name": q, "qtype": rng.choice([1, 255, 33, 16, 12]), "qclass": rng.choice([1, 255]), "uni": rng.chance(1, 3)}])
-                    if rng.chance(1, 3):
+                    if rng.chance(1, 4):
+                        # a query carrying known answers (RFC 6762 7.1): copies of registered records, any TTL
+                        ka = rng.choice(P)
+                        p["qs"] = [{"name": ka["name"], "qtype": rng.choice([255, dns.rdata_type_code(ka["rdata"])]), "qclass": rng.choice([1, 255]), "uni": False}]
+                        p["ans"] = [dict(ka, ttl=rng.choice([0, 60, 120, 0x7fffffff, 0x80000000, 0xffffffff]))]
+                    elif rng.chance(1, 3):
                         p["flags"] = 0x8400
                         p["ans"] = [dict(rng.choice(P), name=[rng.choice([b"peer", b"\xff", b"x" * 63])] + SVC,
                                          ttl=rng.choice([0, 1, 120, 4500, 0x03333333, 0x03333334, 0x04000000, 0x7fffffff, 0xffffffff]),
